@@ -86,6 +86,7 @@ class World:
         self.done_idx = None      # len(events) when unload() returned
         self.pre = None
         self.app_calls = []       # (overlay, task) of API coroutines the application is awaiting
+        self.keep_app_calls = False   # pending-API stage: the application does NOT cancel what it is awaiting
         self.stack = contextlib.ExitStack()
 
     # ------------------------------------------------------------------ instrumentation
@@ -228,7 +229,7 @@ class World:
         self.drain_handler_log()
         # the application stops using the overlay: the API coroutines it is still awaiting on it are its own tasks
         for ov, t in self.app_calls:
-            if ov is self.target and not t.done():
+            if ov is self.target and not t.done() and not self.keep_app_calls:
                 t.cancel()
         self.pre = alpha(self, self.target)
         self.unload_step = self.step
@@ -983,6 +984,195 @@ def run_service_once(job):
 def run_service_job(job):
     try:
         res = run_service_once(job)
+        res["job"] = job
+        return res
+    except Exception:   # noqa
+        import traceback
+        return {"job": job, "crash": traceback.format_exc()[-1500:], "bad": []}
+
+
+# ========================================================================================== pending application API calls
+# A public coroutine of an overlay runs in the CALLER's task: unload() cannot cancel it.  It must nevertheless
+# not make the overlay send once unload() has returned.  Every public coroutine method found by the translator
+# (tr_lifecycle.public_coroutines) needs a driver here; a method without one is reported (coverage is fail-closed).
+def api_drivers():
+    """class name -> {method name: callable(w, ov, ctx) -> awaitable started on behalf of the application}"""
+    from ipv8.dht.routing import Node
+    from ipv8.peer import Peer
+
+    def node_of(X):
+        return Node(X.my_peer.public_key.key_to_bin(), X.my_peer.address)
+    key = bytes(range(20))
+    dht = {
+        "store_value": lambda w, ov, c: ov.store_value(key, b"pending-value"),
+        "store_on_nodes": lambda w, ov, c: _store_on_nodes(ov, key, c),
+        "find": lambda w, ov, c: ov.find(key, False, 0, False),
+        "find_values": lambda w, ov, c: ov.find_values(key),
+        "find_nodes": lambda w, ov, c: ov.find_nodes(bytes(20)),
+        "node_maintenance": lambda w, ov, c: ov.node_maintenance(),
+    }
+    disc = dict(dht)
+    disc.update({
+        "store_peer": lambda w, ov, c: ov.store_peer(),
+        "send_store_peer_request": lambda w, ov, c: _after_find(ov, lambda nodes: ov.send_store_peer_request(ov.my_peer.mid, nodes)),
+        "connect_peer": lambda w, ov, c: ov.connect_peer(c["others"][-1].my_peer.mid),
+        "connect_peer(peer)": lambda w, ov, c: ov.connect_peer(c["others"][1].my_peer.mid,
+                                                              Peer(c["others"][1].my_peer.public_key.key_to_bin(), c["others"][1].my_peer.address)),
+        "send_connect_peer_request": lambda w, ov, c: _after_find(ov, lambda nodes: ov.send_connect_peer_request(bytes(20), nodes)),
+    })
+
+    async def ready2(w, ov, c):
+        circ = ov.create_circuit(2, exit_flags=[2])
+        return await circ.ready if circ is not None else None
+
+    async def lookup(w, ov, c):
+        return await ov.dht_peer_lookup(bytes(20))
+    # None: not awaited by applications (a @task of the overlay's own manager, or an internal hook of a handler task)
+    tun = {"circuit.ready": ready2, "should_join_circuit": None, "dht_peer_lookup": lookup,
+           "remove_circuit": None, "remove_relay": None, "remove_exit_socket": None}
+    ih = bytes(range(7, 27))
+
+    def swarm(ov):
+        ov.join_swarm(ih, 1, seeding=True)
+
+    async def rp(w, ov, c):
+        swarm(ov)
+        return await ov.create_rendezvous_point(ih)
+
+    async def ip(w, ov, c):
+        swarm(ov)
+        return await ov.create_introduction_point(ih)
+
+    async def est(w, ov, c):
+        return await ov.estimate_swarm_size(ih, 1, 3)
+
+    async def dpd(w, ov, c):
+        swarm(ov)
+        return await ov.do_peer_discovery()
+
+    async def dl(w, ov, c):
+        return await ov.dht_lookup(ih)
+    hid = dict(tun)
+    hid.update({"create_rendezvous_point": rp, "create_introduction_point": ip, "estimate_swarm_size": est,
+                "do_peer_discovery": dpd, "dht_lookup": dl, "dht_announce": None})
+    return {"DHTCommunity": dht, "DHTDiscoveryCommunity": disc, "TunnelCommunity": tun, "HiddenTunnelCommunity": hid,
+            "DiscoveryCommunity": {}, "PexCommunity": {}, "AttestationCommunity": {}, "IdentityCommunity": {}}
+
+
+async def _after_find(ov, fn):
+    nodes = await ov.find_nodes(bytes(20))
+    return await fn(list(nodes)[:8])
+
+
+async def _store_on_nodes(ov, key, c):
+    nodes = await ov.find_nodes(key)
+    return await ov.store_on_nodes(key, [b"direct"], list(nodes)[:8])
+
+
+API_SCENARIO = {"DHTCommunity": "dht", "DHTDiscoveryCommunity": "dht-discovery", "TunnelCommunity": "tunnel",
+                "HiddenTunnelCommunity": "hidden-tunnel"}
+# methods every overlay inherits that are not application API (the unload machinery itself, periodic bodies)
+API_IGNORED = {"unload", "discover_lan_addresses", "shutdown_task_manager", "wait_for_tasks"}
+
+
+def run_api_once(job):
+    from .prng import stream
+    T = scenario_table()
+    cls, kw, script, roles, wrapper = T[API_SCENARIO[job["cls"]]]
+    r = stream(job["seed"], "C11/api/%s/%s" % (job["cls"], job["api"]))
+    drv = api_drivers()[job["cls"]][job["api"]]
+    with World(job["seed"]) as w:
+        async def main():
+            tunnel = kw is None
+            if tunnel:
+                names = build_tunnel(w, cls)
+                tgt = w.nodes["origin"]
+            else:
+                names = build_generic(w, cls, 5, None, **kw)
+                tgt = w.nodes["n0"]
+            w.watch(tgt)
+            w.keep_app_calls = True
+            others = [w.nodes[n] for n in names if w.nodes[n] is not tgt]
+            await asyncio.sleep(0)
+            if not tunnel:
+                await introduce(w, names)
+                if hasattr(tgt, "store_value"):
+                    # a value that only the last node holds: find_values ends with a caching store on another node
+                    st = others[-1]
+                    try:
+                        st.add_value(bytes(range(20)), st.serialize_value(b"old-value"), st.get_storage(st.get_my_node_id and __import__("ipv8.dht.routing", fromlist=["Node"]).Node(st.my_peer.public_key.key_to_bin(), st.my_peer.address)))
+                    except Exception:   # noqa
+                        pass
+            # from now on the target's peers answer partially and late
+            taddr = w.target_raw.addr
+            slow = {w.eps[names[1 if not tunnel else 1]].addr: 0.7, w.eps[names[2]].addr: 1.6}
+            dead = {w.eps[names[3]].addr}
+
+            def filt(src, dst, data):
+                if tuple(dst[:2]) == taddr:
+                    if src in dead:
+                        return []
+                    if src in slow:
+                        w.loop.call_later(slow[src], lambda: w.net.queue.append((src, dst, data)))
+                        return []
+                return [(dst, data)]
+            w.net.filter = filt
+
+            async def pumper():
+                while True:
+                    while w.net.queue:
+                        w.net.deliver_one()
+                    w.drain_handler_log()
+                    await asyncio.sleep(0.02)
+            pt = asyncio.ensure_future(pumper())
+            ctx = {"others": others}
+            aw = drv(w, tgt, ctx)
+            app = asyncio.ensure_future(aw)
+            w.app_calls.append((tgt, app))
+            await w.loop.advance(job["t"])
+            sends_before = len([1 for e in w.events if e[0] == "send"])
+            pending = not app.done()
+            w.start_unload()
+            for _ in range(400):
+                if w.unload_task.done():
+                    break
+                await w.loop.advance(0.25)
+            bad = []
+            if not w.unload_task.done():
+                w.unload_task.cancel()
+                bad.append(("unload/never-returns", "unload() of %s did not return within 100 virtual seconds" % job["cls"]))
+                w.done_idx = len(w.events)
+            w.after = post_observation(w, tgt)
+            kinds = {id(m): k for m, k in owned_managers(w, tgt)}
+            w.unfinished_after = [(m, n, f, kinds[id(m)]) for (m, n, f) in w.futs if id(m) in kinds and not f.done()]
+            w.open_after = [t for t in w.transports if not t.closed and getattr(t.owner, "overlay", None) is tgt]
+            w.probe_bad = []
+            late_from = w.done_idx
+            # the peers go on answering (late), the application's task goes on doing whatever it does
+            await w.loop.advance(60.0)
+            w.drain_handler_log()
+            for k, v in judge(w, late_from):
+                if k.startswith("late/send"):
+                    bad.append(("late/send/pending-api/%s.%s" % (job["cls"], job["api"]),
+                                "%s [while the application's %s.%s(), started %.2fs before unload(), is still running]"
+                                % (v, job["cls"], job["api"], job["t"])))
+                else:
+                    bad.append((k + "/pending-api", v))
+            pt.cancel()
+            if not app.done():
+                app.cancel()
+            for other in others:
+                t2 = asyncio.ensure_future(other.unload())
+                await asyncio.wait([t2], timeout=30.0)
+            return {"bad": bad, "pending_at_unload": pending, "sends_before": sends_before,
+                    "app_state": "pending" if not app.done() else ("cancelled" if app.cancelled() else
+                                                                    type(app.exception()).__name__ if app.exception() else "returned")}
+        return w.loop.run_until_complete(main())
+
+
+def run_api_job(job):
+    try:
+        res = run_api_once(job)
         res["job"] = job
         return res
     except Exception:   # noqa
